@@ -41,7 +41,7 @@ fn settings(g: &mut Sm, focus: &str) -> String {
         _ => None,
     };
     let max_step = match focus {
-        "C19" => *g.pick(&[0.01, 0.1, 0.3, 1., 1e-5, 1e-7, 0.001, 3e-4]),
+        "C19" => *g.pick(&[0.01, 0.1, 0.3, 1., 1e-5, 1e-7, 0.001, 3e-4, 1.5, 1.2, 1.9]),
         _ => *g.pick(&[0.001, 0.01, 0.1, 1., 10., 1e-6]),
     };
     let conv: Option<f64> = match focus {
@@ -122,7 +122,7 @@ pub fn gen(focus: &str, seed: u64, count: u64) -> Vec<String> {
                 if g.chance(0.4) { 1 + g.below(3) } else { 0 },
                 g.below(100_000),
                 // C06 quantifies over all states: some start outside their declared ranges
-                if (focus == "C06" || focus == "C05") && g.chance(0.2) { " outside=1" }
+                if (focus == "C06" || focus == "C05" || focus == "C07") && g.chance(0.2) { " outside=1" }
                 else if focus == "C20" && g.chance(0.15) { " reversed=1" } else { "" }
             )
         };
@@ -143,6 +143,10 @@ pub fn gen(focus: &str, seed: u64, count: u64) -> Vec<String> {
             s.kv.insert("conv".into(), fmt_f(*g.pick(&[1e-3, 1., 0.02, f64::INFINITY])));
             st = s.kv.iter().map(|(k, v)| format!("{}={}", k, v)).collect::<Vec<_>>().join(" ");
             st.push_str(" reuse=1");
+        }
+        // the optimiser configured through the library's setters, in either order (C18, C20)
+        if (focus == "C18" || focus == "C20") && g.chance(0.15) {
+            st.push_str(if g.chance(0.5) { " order=is" } else { " order=si" });
         }
         out.push(format!("opt id={}-{} {} {}", focus, i, head, st));
     }
